@@ -467,7 +467,11 @@ def run_property(pid, tier, flags, only, scratch, t0, seed, evidence_path):
         os.makedirs(os.path.join(VERIF, 'replays', pid), exist_ok=True)
         done_groups = set()
         for o in violations:
-            if (o['group'], o['cls'] == 'canary') in done_groups and len(replay_files) >= 6:
+            if len(replay_files) >= 6:
+                lines.append('VIOLATION property=%s replay=%s obligation="%s" no-failing-input-found' % (
+                    pid, replay_files[0]['path'], o['key']))
+                if len(lines) > 40:
+                    break
                 continue
             done_groups.add((o['group'], o['cls'] == 'canary'))
             rf = make_replay(pid, specdir, gmap.get(o['group']), o, scratch, tier, stack)
